@@ -817,3 +817,472 @@ pub fn extremes(seed: u64, family: &str) -> Scenario {
     sc.script_cap_ms = 7_200_000 + 2_000_000;
     sc
 }
+
+// ------------------------------------------------------------------------------------------
+// Scripted-peer worlds.
+
+use crate::peer::{AckMode, AutoCfg, PeerRole, PeerScript, PeerStep, RxModel, SackSpec};
+
+fn peer_base(r: &mut Rng) -> (bool, PeerRole, u16, u16) {
+    let ipv6 = r.chance(0.2);
+    let role = if r.chance(0.5) { PeerRole::Connector } else { PeerRole::Acceptor };
+    let isn = match r.below(4) {
+        0 => 65535u16.wrapping_sub(r.below(30) as u16),
+        1 => r.below(3) as u16,
+        _ => r.next() as u16,
+    };
+    let conn_id = match r.below(4) {
+        0 => 65534u16.wrapping_add(r.below(3) as u16),
+        _ => r.next() as u16,
+    };
+    (ipv6, role, isn, conn_id)
+}
+
+fn wait_ms(r: &mut Rng, paced: bool) -> u64 {
+    let w = *r.pick(&[0u64, 0, 1, 1, 2, 5, 10, 20, 39, 40, 41, 45, 80, 100, 150, 200]);
+    if paced { w.max(1) } else { w }
+}
+
+/// The peer is the sender: the real endpoint receives (C04, C07, C17).
+/// `exact`: compliant, paced sender (full-size packets inside the window, at most one datagram
+/// per instant) so that equality oracles are decidable. Otherwise hostile extras are mixed in.
+pub fn peer_sender(seed: u64, family: &str, exact: bool) -> Scenario {
+    let mut r = Rng::new(seed ^ 0x5E4D);
+    let (ipv6, role, isn, conn_id) = peer_base(&mut r);
+    let link = if r.chance(0.5) { None } else { Some(r.range(if ipv6 { 1300 } else { 600 }, 1500) as usize) };
+    let link_v = link.unwrap_or(1500);
+    let mss = min_payload(link_v, ipv6);
+    let maxp = max_payload(link_v, ipv6);
+    let mut opts = OptsCfg { link_mtu: link, ..Default::default() };
+    let n_pkts = r.range(1, if exact { 40 } else { 60 }) as usize;
+    // receive buffer: large, or small enough to matter
+    let small_rx = r.chance(0.5);
+    if small_rx {
+        // exact mode: every out-of-order packet must fit a reassembly slot (displacement <= 6)
+        opts.rx_buf = Some(if exact { r.range((16 * link_v) as u64, (40 * link_v) as u64) } else { r.range((2 * link_v) as u64, (12 * link_v) as u64) } as usize);
+    }
+    opts.inactivity_ms = Some(r.log_range(2000, 60_000));
+    opts.max_retx = Some(r.range(3, 6) as usize);
+    let rx_buf = opts.rx_buf();
+    // packet sizes
+    let mut pkts: Vec<u16> = (0..n_pkts)
+        .map(|_| {
+            if exact {
+                // sizes the endpoint itself would use (so they fit its reassembly slots)
+                if r.chance(0.7) { mss as u16 } else { r.range(1, mss as u64) as u16 }
+            } else {
+                match r.below(6) {
+                    0 => 1,
+                    1 => r.range(1, mss as u64) as u16,
+                    2 => mss as u16,
+                    3 => r.range(mss as u64, maxp as u64) as u16,
+                    4 => r.range(1, 3000) as u16,
+                    _ => mss as u16,
+                }
+            }
+        })
+        .collect();
+    // arrival order
+    let mut steps: Vec<PeerStep> = vec![];
+    let mut order: Vec<usize> = (0..n_pkts).collect();
+    // local displacements
+    let swaps = if r.chance(0.3) { 0 } else { r.range(0, (n_pkts / 2) as u64) };
+    for _ in 0..swaps {
+        let i = r.below(n_pkts as u64) as usize;
+        let j = (i + r.range(1, 6) as usize).min(n_pkts - 1);
+        order.swap(i, j);
+    }
+    // In exact mode stay inside the advertised window: never send more than what fits the
+    // buffer ahead of what the reader can have taken (the reader is fast in exact mode).
+    let mut in_flight_bytes: u64 = 0;
+    for (k, i) in order.iter().enumerate() {
+        if exact {
+            in_flight_bytes += pkts[*i] as u64;
+            if in_flight_bytes + 2 * mss as u64 > rx_buf as u64 / 2 {
+                // let the reader catch up
+                steps.push(PeerStep::Wait(50));
+                in_flight_bytes = 0;
+            }
+        }
+        steps.push(PeerStep::SendPkt(*i));
+        if r.chance(0.12) {
+            // duplicate (now or later)
+            if r.chance(0.5) {
+                steps.push(PeerStep::Wait(wait_ms(&mut r, exact)));
+            }
+            steps.push(PeerStep::SendPkt(*r.pick(&order[..=k])));
+        }
+        if !exact && r.chance(0.08) {
+            match r.below(5) {
+                0 => steps.push(PeerStep::RogueData { rel: r.range(n_pkts as u64 + 2, n_pkts as u64 + 3000) as i32, len: r.range(1, 2000) as u16 }),
+                1 => steps.push(PeerStep::RogueData { rel: -(r.range(1, 2000) as i32), len: r.range(1, 2000) as u16 }),
+                2 => steps.push(PeerStep::Fin { at: Some(r.below(n_pkts as u64) as usize) }),
+                3 => steps.push(PeerStep::Ack { ack_delta: r.range(0, 5) as i32 - 2, wnd: Some(r.log_range(1, 1 << 20) as u32), sack: SackSpec::Auto }),
+                _ => steps.push(PeerStep::HandshakeDup),
+            }
+        }
+        let w = wait_ms(&mut r, exact);
+        steps.push(PeerStep::Wait(w));
+    }
+    let fin = r.chance(0.7);
+    let n_pkts = pkts.len();
+    if fin {
+        steps.push(PeerStep::Fin { at: None });
+        if !exact && r.chance(0.3) {
+            steps.push(PeerStep::Wait(wait_ms(&mut r, false)));
+            steps.push(PeerStep::RogueData { rel: n_pkts as i32 + 2, len: 100 });
+            steps.push(PeerStep::SendPkt(r.below(n_pkts as u64) as usize));
+        }
+    } else if !exact && r.chance(0.2) {
+        steps.push(PeerStep::Reset);
+    }
+    steps.push(PeerStep::Wait(300));
+    // exact sub-variant: a compliant sender fills the advertised window exactly while the reader
+    // sleeps (window closes), then the reader drains (window must be re-announced at once)
+    let zero_window_variant = exact && r.chance(0.2);
+    if zero_window_variant {
+        let buf = r.range((3 * link_v) as u64, (8 * link_v) as u64) as usize;
+        opts.rx_buf = Some(buf);
+        let k = buf / mss; // whole segments that fit: afterwards the advertised window is 0
+        pkts = vec![mss as u16; k];
+        steps.clear();
+        for i in 0..k {
+            steps.push(PeerStep::SendPkt(i));
+            steps.push(PeerStep::Wait(wait_ms(&mut r, true).min(20)));
+        }
+        steps.push(PeerStep::Wait(4000));
+    }
+    // endpoint application
+    let reader: Vec<ROp> = if zero_window_variant {
+        vec![ROp::Sleep(r.range(800, 2500)), ROp::Read { n: u64::MAX, buf: r.log_range(64, 65536) as usize, vectored: false }]
+    } else if exact {
+        vec![ROp::Read { n: u64::MAX, buf: r.log_range(64, 65536) as usize, vectored: r.chance(0.2) }]
+    } else {
+        match r.below(5) {
+            0 => vec![ROp::Read { n: u64::MAX, buf: r.log_range(1, 65536).max(16) as usize, vectored: false }],
+            1 => vec![ROp::Sleep(r.log_range(10, 3000)), ROp::Read { n: u64::MAX, buf: 4096, vectored: false }],
+            2 => vec![ROp::Read { n: r.log_range(1, 5000), buf: 512, vectored: false }, ROp::Sleep(r.log_range(100, 3000)), ROp::Read { n: u64::MAX, buf: 4096, vectored: false }],
+            3 => vec![ROp::Read { n: r.log_range(1, 5000), buf: 512, vectored: false }, ROp::Drop],
+            _ => vec![ROp::Sleep(r.log_range(500, 5000)), ROp::Read { n: u64::MAX, buf: 65536, vectored: true }],
+        }
+    };
+    let mut writer: Vec<WOp> = vec![];
+    if role == PeerRole::Acceptor {
+        // the endpoint is the initiator: it must send something first
+        writer.push(WOp::Write { n: r.range(1, 600), chunk: 4096 });
+    } else if r.chance(0.3) {
+        writer.push(WOp::Write { n: r.range(1, 3000), chunk: 4096 });
+    }
+    if !exact {
+        match r.below(4) {
+            0 => writer.push(WOp::Shutdown),
+            1 => {
+                writer.push(WOp::Sleep(r.log_range(1, 3000)));
+                writer.push(WOp::Drop);
+            }
+            _ => {}
+        }
+    }
+    let peer = PeerScript {
+        role,
+        isn,
+        conn_id,
+        wnd: 1 << 20,
+        auto: AutoCfg { ack: AckMode::Immediate, sack: true, answer_fin: true, rx_model: None },
+        pkts,
+        steps,
+        start_ms: 0,
+        synack_delay_ms: r.range(0, 50),
+    };
+    let side = Side { w: writer, r: reader };
+    let (connects, accepts) = match role {
+        PeerRole::Connector => (vec![], vec![AcceptScript { node: 0, at_ms: 0, cancel_after_ms: None, side }]),
+        PeerRole::Acceptor => (vec![ConnectScript { node: 0, to: 1, at_ms: 0, cancel_after_ms: None, side }], vec![]),
+    };
+    let mut params = std::collections::BTreeMap::new();
+    params.insert("peer_exact".to_string(), exact as i64);
+    params.insert("peer_fin".to_string(), fin as i64);
+    Scenario {
+        family: family.to_string(),
+        seed,
+        // one-way latency 0 and no jitter: the script's waits are the arrival times
+        net: NetCfg { seed: r.next(), latency_us: 0, ..Default::default() },
+        nodes: vec![NodeCfg { ipv6, opts, env: gen_env(&mut r) }],
+        connects,
+        accepts,
+        global: vec![],
+        peer: Some(peer),
+        script_cap_ms: 120_000,
+        settle_ms: 70_000,
+        params,
+    }
+}
+
+/// The peer is the receiver: the real endpoint sends (C05, C06, C18, C19).
+pub fn peer_receiver(seed: u64, family: &str, variant: u8) -> Scenario {
+    // variant: 0 generic, 1 no-loss-signal (never SACK, never dup: endpoint never enters recovery),
+    //          2 retransmission discipline (withheld/dup/SACK/stale ACKs), 3 nagle, 4 buffer
+    let mut r = Rng::new(seed ^ 0x4ECE ^ ((variant as u64) << 32));
+    let (ipv6, role, isn, conn_id) = peer_base(&mut r);
+    let probing = r.chance(0.5);
+    let link = if probing { if r.chance(0.5) { None } else { Some(r.range(700, 3000) as usize) } } else { Some(if ipv6 { 1280 } else { 576 }) };
+    let link_v = link.unwrap_or(1500);
+    let mss = min_payload(link_v, ipv6);
+    let mut opts = OptsCfg { link_mtu: link, ..Default::default() };
+    opts.disable_nagle = match variant {
+        3 => r.chance(0.5),
+        _ => r.chance(0.3),
+    };
+    if variant == 4 || r.chance(0.5) {
+        opts.tx_init = Some(r.log_range(16, 65536) as usize);
+        if r.chance(0.7) {
+            opts.tx_max = Some(r.log_range(16, 200_000) as usize);
+        }
+    }
+    opts.max_retx = Some(r.range(2, 6) as usize);
+    opts.inactivity_ms = Some(r.log_range(3000, 120_000));
+    if r.chance(0.3) {
+        opts.mtu_probe_retx = Some(r.below(3) as usize);
+    }
+    let total = if variant == 4 { r.log_range(1, 300_000) } else { r.log_range(1, 60_000) };
+    let mut w = if variant == 3 {
+        // many small writes with pauses
+        let mut v = vec![];
+        let mut left = total.min(20_000);
+        while left > 0 {
+            let n = r.log_range(1, (3 * mss) as u64).min(left);
+            v.push(WOp::Write { n, chunk: 65536 });
+            left -= n;
+            match r.below(4) {
+                0 => v.push(WOp::Sleep(wait_ms(&mut r, true))),
+                1 => v.push(WOp::Yield(1)),
+                _ => {}
+            }
+        }
+        v
+    } else {
+        gen_writes(&mut r, total, opts.tx_init(), mss)
+    };
+    match r.below(4) {
+        0 => {
+            w.push(WOp::Flush);
+            w.push(WOp::Shutdown);
+        }
+        1 => w.push(WOp::Shutdown),
+        2 => w.push(WOp::Drop),
+        _ => w.push(WOp::Flush),
+    }
+    // the peer's window behaviour
+    let mut auto = AutoCfg { ack: AckMode::Immediate, sack: variant != 1 && r.chance(0.7), answer_fin: true, rx_model: None };
+    auto.ack = match r.below(4) {
+        0 => AckMode::Immediate,
+        1 => AckMode::Delayed(*r.pick(&[1u64, 5, 20, 40, 100])),
+        2 => AckMode::EveryN(r.range(1, 4) as u32),
+        _ => AckMode::Immediate,
+    };
+    let wnd: u32 = match r.below(5) {
+        0 => 1 << 20,
+        1 => r.log_range(mss as u64, 20 * mss as u64) as u32,
+        2 => r.log_range(1, 2 * mss as u64) as u32,
+        _ => r.log_range(1000, 1 << 20) as u32,
+    };
+    if r.chance(0.3) && variant != 2 {
+        auto.rx_model = Some(RxModel { buf: r.log_range(mss as u64, 40 * mss as u64) as u32, drain_per_ms: if r.chance(0.5) { 0 } else { r.log_range(1, 2000) as u32 } });
+    }
+    let mut steps = vec![];
+    let n_steps = r.range(0, 25);
+    for _ in 0..n_steps {
+        steps.push(PeerStep::Wait(wait_ms(&mut r, true).max(1) * r.range(1, 4)));
+        let lossy_allowed = variant != 1;
+        match r.below(12) {
+            0 => steps.push(PeerStep::SetWnd(0)),
+            1 => {
+                steps.push(PeerStep::SetWnd(r.log_range(1, 1 << 20) as u32));
+                steps.push(PeerStep::Ack { ack_delta: 0, wnd: None, sack: SackSpec::Auto });
+            }
+            2 => steps.push(PeerStep::Drain(r.log_range(1, 100_000) as u32)),
+            3 => {
+                steps.push(PeerStep::Drain(r.log_range(1, 100_000) as u32));
+                steps.push(PeerStep::Ack { ack_delta: 0, wnd: None, sack: SackSpec::Auto });
+            }
+            4 if lossy_allowed => {
+                // withhold ACKs for a while
+                steps.push(PeerStep::SetAuto(AutoCfg { ack: AckMode::Manual, ..auto.clone() }));
+                steps.push(PeerStep::Wait(r.log_range(50, 3000)));
+                steps.push(PeerStep::SetAuto(auto.clone()));
+                steps.push(PeerStep::Ack { ack_delta: 0, wnd: None, sack: SackSpec::Auto });
+            }
+            5 if lossy_allowed => {
+                // duplicate ACKs
+                for _ in 0..r.range(1, 5) {
+                    steps.push(PeerStep::Ack { ack_delta: 0, wnd: None, sack: SackSpec::None });
+                    if r.chance(0.5) {
+                        steps.push(PeerStep::Wait(1));
+                    }
+                }
+            }
+            6 if lossy_allowed => {
+                // stale ACK
+                steps.push(PeerStep::Ack { ack_delta: -(r.range(1, 5) as i32), wnd: None, sack: SackSpec::None });
+            }
+            7 if lossy_allowed => {
+                // SACK with explicit bits (claims about packets it may not have)
+                let bits: Vec<bool> = (0..r.range(1, 40)).map(|_| r.chance(0.4)).collect();
+                steps.push(PeerStep::Ack { ack_delta: 0, wnd: None, sack: SackSpec::Bits(bits) });
+            }
+            8 => steps.push(PeerStep::Ack { ack_delta: 0, wnd: Some(r.log_range(1, 1 << 20) as u32), sack: SackSpec::Auto }),
+            9 if lossy_allowed && r.chance(0.2) => steps.push(PeerStep::Vanish),
+            _ => {}
+        }
+    }
+    steps.push(PeerStep::Wait(200));
+    let peer = PeerScript {
+        role,
+        isn,
+        conn_id,
+        wnd,
+        auto,
+        pkts: if r.chance(0.3) { (0..r.range(1, 5)).map(|_| r.range(1, mss as u64) as u16).collect() } else { vec![] },
+        steps,
+        start_ms: 0,
+        synack_delay_ms: r.range(0, 30),
+    };
+    let side = Side { w, r: vec![ROp::Read { n: u64::MAX, buf: 4096, vectored: false }] };
+    let (connects, accepts) = match role {
+        PeerRole::Connector => (vec![], vec![AcceptScript { node: 0, at_ms: 0, cancel_after_ms: None, side }]),
+        PeerRole::Acceptor => (vec![ConnectScript { node: 0, to: 1, at_ms: 0, cancel_after_ms: None, side }], vec![]),
+    };
+    let mut params = std::collections::BTreeMap::new();
+    params.insert("peer_variant".to_string(), variant as i64);
+    let mut peer = peer;
+    // A connector peer must send something after the SYN-ACK or the endpoint gives up: one ACK.
+    peer.steps.insert(0, PeerStep::Ack { ack_delta: 0, wnd: None, sack: SackSpec::None });
+    Scenario {
+        family: family.to_string(),
+        seed,
+        net: NetCfg { seed: r.next(), latency_us: *r.pick(&[0u64, 0, 1000, 10_000, 40_000]), ..Default::default() },
+        nodes: vec![NodeCfg { ipv6, opts, env: gen_env(&mut r) }],
+        connects,
+        accepts,
+        global: vec![],
+        peer: Some(peer),
+        script_cap_ms: 200_000,
+        settle_ms: 30_000,
+        params,
+    }
+}
+
+/// C17: short handshake/teardown scripts from every state: bounded seeded sequences of peer
+/// packets (in and out of sequence, duplicated, late handshake retransmissions), application
+/// actions and timer expiries (by waiting).
+pub fn c17_teardown(seed: u64) -> Scenario {
+    let mut r = Rng::new(seed ^ 0xC17);
+    let (ipv6, role, isn, conn_id) = peer_base(&mut r);
+    let link_v = 1500;
+    let mss = min_payload(link_v, ipv6);
+    let mut opts = OptsCfg::default();
+    opts.max_retx = Some(r.range(2, 5) as usize);
+    opts.inactivity_ms = Some(r.log_range(1500, 20_000));
+    opts.dont_wait_lastack = r.chance(0.3);
+    let n_pkts = r.range(0, 4) as usize;
+    let pkts: Vec<u16> = (0..n_pkts).map(|_| r.range(1, mss as u64) as u16).collect();
+    let silent_peer = role == PeerRole::Connector && r.chance(0.1);
+    let mut auto = AutoCfg { ack: if r.chance(0.7) { AckMode::Immediate } else { AckMode::Manual }, sack: r.chance(0.5), answer_fin: r.chance(0.6), rx_model: None };
+    let mut steps = vec![];
+    if !silent_peer {
+        if role == PeerRole::Connector && r.chance(0.9) {
+            steps.push(PeerStep::Ack { ack_delta: 0, wnd: None, sack: SackSpec::None });
+        }
+        let mut next_pkt = 0usize;
+        for _ in 0..r.range(0, 10) {
+            match r.below(12) {
+                0 | 1 => {
+                    if next_pkt < n_pkts {
+                        steps.push(PeerStep::SendPkt(next_pkt));
+                        next_pkt += 1;
+                    }
+                }
+                2 => {
+                    if n_pkts > 0 {
+                        steps.push(PeerStep::SendPkt(r.below(n_pkts as u64) as usize));
+                    }
+                }
+                3 => steps.push(PeerStep::Fin { at: None }),
+                4 => {
+                    if n_pkts > 0 {
+                        steps.push(PeerStep::Fin { at: Some(r.below(n_pkts as u64) as usize) })
+                    }
+                }
+                5 => steps.push(PeerStep::Ack { ack_delta: r.range(0, 3) as i32 - 1, wnd: None, sack: SackSpec::Auto }),
+                6 => steps.push(PeerStep::HandshakeDup),
+                7 => {
+                    if r.chance(0.4) {
+                        steps.push(PeerStep::Reset)
+                    }
+                }
+                8 => {
+                    auto.answer_fin = !auto.answer_fin;
+                    steps.push(PeerStep::SetAuto(auto.clone()));
+                }
+                9 => {
+                    if r.chance(0.2) {
+                        steps.push(PeerStep::Vanish)
+                    }
+                }
+                10 => steps.push(PeerStep::RogueData { rel: n_pkts as i32 + 2 + r.below(5) as i32, len: r.range(1, 600) as u16 }),
+                _ => {}
+            }
+            steps.push(PeerStep::Wait(*r.pick(&[0u64, 1, 5, 40, 200, 250, 1100, 3000])));
+        }
+    } else {
+        auto.ack = AckMode::Manual;
+        auto.answer_fin = false;
+    }
+    steps.push(PeerStep::Wait(100));
+    let mut wops = vec![];
+    if role == PeerRole::Acceptor || r.chance(0.6) {
+        wops.push(WOp::Write { n: r.log_range(1, 3000), chunk: 4096 });
+    }
+    for _ in 0..r.range(0, 2) {
+        wops.push(WOp::Sleep(*r.pick(&[1u64, 10, 100, 500, 1500, 4000])));
+        if r.chance(0.5) {
+            wops.push(WOp::Write { n: r.log_range(1, 2000), chunk: 4096 });
+        }
+    }
+    let mut rops = vec![ROp::Read { n: u64::MAX, buf: 4096, vectored: false }];
+    match r.below(5) {
+        0 => wops.push(WOp::Shutdown),
+        1 => {
+            wops.push(WOp::Drop);
+            rops = vec![ROp::Sleep(r.log_range(1, 3000)), ROp::Drop];
+        }
+        2 => {
+            wops.push(WOp::Flush);
+            wops.push(WOp::Shutdown);
+        }
+        3 => {
+            wops.push(WOp::Shutdown);
+            wops.push(WOp::Drop);
+        }
+        _ => {}
+    }
+    let peer = PeerScript { role, isn, conn_id, wnd: 1 << 20, auto, pkts, steps, start_ms: 0, synack_delay_ms: r.range(0, 300) };
+    let side = Side { w: wops, r: rops };
+    let (connects, accepts) = match role {
+        PeerRole::Connector => (vec![], vec![AcceptScript { node: 0, at_ms: 0, cancel_after_ms: None, side }]),
+        PeerRole::Acceptor => (vec![ConnectScript { node: 0, to: 1, at_ms: 0, cancel_after_ms: None, side }], vec![]),
+    };
+    Scenario {
+        family: "c17_teardown".to_string(),
+        seed,
+        net: NetCfg { seed: r.next(), latency_us: *r.pick(&[0u64, 0, 1000, 20_000]), ..Default::default() },
+        nodes: vec![NodeCfg { ipv6, opts, env: gen_env(&mut r) }],
+        connects,
+        accepts,
+        global: vec![],
+        peer: Some(peer),
+        script_cap_ms: 60_000,
+        settle_ms: 400_000,
+        params: Default::default(),
+    }
+}
